@@ -65,6 +65,15 @@ def all_props():
 
 # ---------------------------------------------------------------- Go side
 
+def repo_tag():
+    """Suffix that keeps the overlay and the driver binary of a run against a
+    scratch checkout (VERIF_REPO) apart from those of a concurrent run against /repo."""
+    if os.path.realpath(REPO) == "/repo":
+        return ""
+    import hashlib
+    return "-" + hashlib.sha1(os.path.realpath(REPO).encode()).hexdigest()[:8]
+
+
 def write_overlay(spec):
     """Overlay that injects the harness into the sdns module (nothing is
     written under /repo)."""
@@ -84,7 +93,7 @@ def write_overlay(spec):
         d, b = os.path.split(e)
         rep[os.path.join(REPO, d, "zz_" + b)] = os.path.join(HARNESS, "export", e)
     os.makedirs(BUILD, exist_ok=True)
-    path = os.path.join(BUILD, "overlay_%s.json" % spec["id"])
+    path = os.path.join(BUILD, "overlay_%s%s.json" % (spec["id"], repo_tag()))
     with open(path, "w") as f:
         json.dump({"Replace": rep}, f, indent=1)
     return path
@@ -93,7 +102,7 @@ def write_overlay(spec):
 def build_driver(spec):
     overlay = write_overlay(spec)
     os.makedirs(BIN, exist_ok=True)
-    out = os.path.join(BIN, spec["driver"])
+    out = os.path.join(BIN, spec["driver"] + repo_tag())
     if os.path.exists(out):
         os.remove(out)  # never run a stale binary
     cmd = ["go", "build", "-tags", "verif", "-overlay", overlay, "-o", out, "./internal/verif/" + spec["driver"]]
